@@ -386,6 +386,8 @@ func fixedWorkloadTexts() []string {
 		"[mapToArr(maps, 'k'), join(strs, ','), toString(1.50), toInt('12'), toFloat('1e3'), toString(t), toString(m)]",
 		// misuse paths (errors) exercised concurrently as well
 		"left(s, 0 - 1)", "regexp(s, '(')", "undefinedName(1)", "[1] == [1]", "st.Nope", "year(1)", "useTimezone(t, 'No/Where')", "fnE(1)", "max()",
+		// errors the evaluator reports itself (not recovered panics): assignment targets, spread, arity, callee kinds, '!.' on null
+		"m.a = 1", "1 = 2", "(i) = 3", "i ? (m.b = 1) : (10 + (st.Name = 2))", "fnS(strs...)", "fnV(1 ...)", "fnI()", "fnI(1, 2)", "s()", "m.zz!.k", "n!.a + np!.b", "fn0(1)", "abs()", "abs('x')", "typeof (arr = 1)",
 		"$a = i + f64 * 2, $b = $a % 7, [$a, $b, $a > $b ? 'gt' : 'le', -$a, ~i, i & 6 | 1 ^ 3]",
 		"[s + 1.5, s < 'z', m.b.c ?? 'none', m.zz.k]",
 		"regexp(s, '^h.*o$') && regexp('abc', '[a-c]+') && !regexp(s, '^x')",
